@@ -362,6 +362,14 @@ def run_workers(docs, seeds, modes=None):
         with open(inp, "w") as f:
             for did, sp, sched in docs:
                 f.write(json.dumps({"id": did, "spec": sp, "sched": bool(sched)}) + "\n")
+        # compile redun's modules once into a private bytecode cache (there is none next to /repo's sources); the
+        # interpreters started below only load it
+        env0 = dict(os.environ, PYTHONPYCACHEPREFIX=os.path.join(tmp, "pyc"))
+        env0.pop("PYTHONDONTWRITEBYTECODE", None)
+        env0.pop("PYTHONPATH", None)
+        subprocess.run([sys.executable, "-c", "import sys; sys.path.insert(0, sys.argv[1]); import redun, redun.value, "
+                        "redun.scheduler, redun.backends.db, redun.config", core.REPO], env=env0, cwd=tmp, capture_output=True,
+                       timeout=300)
         procs = []
         modes = modes or ["fwd"] * len(seeds)
         for sd, mode in zip(seeds, modes):
@@ -560,7 +568,7 @@ def run(ctx):
     g = Gen(ctx.rng)
     specs = [w[1] for w in WITNESSES] + list(CORPUS)
     families = []
-    for fam in FAMILIES + [lookalike_family(ctx.rng) for _ in range(ctx.n(40, 400))]:
+    for fam in FAMILIES + [lookalike_family(ctx.rng) for _ in range(ctx.n(30, 400))]:
         if len(specs) % 2:                  # a family starts on an even index: neighbours land in different halves
             specs.append(["N"])
         families.append(list(range(len(specs), len(specs) + len(fam))))
@@ -568,7 +576,7 @@ def run(ctx):
         if len(families) == len(FAMILIES):
             nfix = len(specs)
     ncorp = len(specs)
-    for _ in range(ctx.n(700, 9000)):
+    for _ in range(ctx.n(500, 9000)):
         specs.append(g.value(ctx.rng.choice([1, 2, 2, 3, 4])))
     seeds = seeds_for(ctx)
     verdicts = check_specs(ctx, specs, seeds, 3 if ctx.tier == "quick" else 4,
